@@ -439,7 +439,7 @@ private theorem gasSum_append (cfg : Cfg) (acc : List Res) (r : Res) :
   simp [gasSum]
 
 /-- the 64-bit sums and the `uint32(...)` narrowing never wrap while the running total is within the limit -/
-private theorem stepNow_eq_ideal (cfg : Cfg) (total : Nat) (r : Res) (h : total ≤ cfg.gasLimit.toNat) :
+theorem stepNow_eq_ideal (cfg : Cfg) (total : Nat) (r : Res) (h : total ≤ cfg.gasLimit.toNat) :
     stepNow cfg total r = stepIdeal cfg total r := by
   have hl := UInt32.toNat_lt cfg.gasLimit
   have hg := UInt32.toNat_lt r.gas
@@ -1228,176 +1228,5 @@ example :
       some ⟨[49, 48, 48], []⟩, some ⟨[49, 48, 50], []⟩]
     (validBlocks attr).Perm ([101, 100, 102] ++ [18446744073709551615]) ∧ medianBlock attr = [49, 48, 50] := by
   decide
-
-/-! ### tie to the source: the model's decision functions are the expressions the extractor
-regenerates from /repo on every run (`Gen.Src.c16*`, see extract/exprs.d/C16.json) -/
-
-/-- `if ok, err := Eligible(result); err != nil || !ok { continue }` -/
-theorem skipNow_matches_source (r : Res) : skipNow r = Gen.Src.c16SkipResult r.eligErr r.eligible := rfl
-
-/-- the gas test and update in unbounded arithmetic are the source's `upkeepMaxGas := …` and
-`uint64(totalReportGas)+upkeepMaxGas > uint64(limit)` -/
-theorem stepIdeal_matches_source (cfg : Cfg) (total : Nat) (r : Res) :
-    stepIdeal cfg total r =
-      if Gen.Src.c16OverGasLimit total (Gen.Src.c16UpkeepMaxGas r.gas.toNat cfg.overhead.toNat) cfg.gasLimit.toNat
-      then none else some (total + Gen.Src.c16UpkeepMaxGas r.gas.toNat cfg.overhead.toNat) := by
-  simp [stepIdeal, Gen.Src.c16OverGasLimit, Gen.Src.c16UpkeepMaxGas]
-
-/-- … and so is the step with the explicit 64/32-bit wrap-around, as long as the running total is
-within the limit (which the loop maintains, `report_no_wrap`) -/
-theorem stepNow_matches_source (cfg : Cfg) (total : Nat) (r : Res) (h : total ≤ cfg.gasLimit.toNat) :
-    stepNow cfg total r =
-      if Gen.Src.c16OverGasLimit total (Gen.Src.c16UpkeepMaxGas r.gas.toNat cfg.overhead.toNat) cfg.gasLimit.toNat
-      then none else some (total + Gen.Src.c16UpkeepMaxGas r.gas.toNat cfg.overhead.toNat) := by
-  rw [stepNow_eq_ideal cfg total r h, stepIdeal_matches_source]
-
-/-- one iteration of the report-building loop: eligibility test, gas test and batch test of the source,
-in source order -/
-theorem reportLoop_step_matches_source (cfg : Cfg) (r : Res) (rs acc : List Res) (total : Nat) :
-    loopG skipNow stepNow cfg (r :: rs) acc total =
-      if Gen.Src.c16SkipResult r.eligErr r.eligible then loopG skipNow stepNow cfg rs acc total
-      else if r.detailErr then loopG skipNow stepNow cfg rs acc total
-      else match stepNow cfg total r with
-        | none => loopG skipNow stepNow cfg rs acc total
-        | some total' =>
-          if Gen.Src.c16BatchFull (acc ++ [r]).length cfg.batch then acc ++ [r]
-          else loopG skipNow stepNow cfg rs (acc ++ [r]) total' := by
-  rw [loopG, skipNow_matches_source]
-  cases stepNow cfg total r with
-  | none => rfl
-  | some t => simp [Gen.Src.c16BatchFull]
-
-/-- `Report`: every guard of the source in source order (`len(attributed) == 0` is the only one not
-regenerated: it is the first statement and has no operator the property depends on) -/
-theorem report_matches_source (loop : Cfg → List Res → List Res) (cfg : Cfg) (attr : List (Option Obs))
-    (pend : Bytes → Bool) (sh : List Bytes → List Bytes) (run : List Bytes → RunnerAns) (encErr : Bool) :
-    reportWith loop cfg attr pend sh run encErr =
-      if attr.length = 0 then ⟨.errNotEnoughInputs, [], []⟩ else
-      match observationsToKeys attr with
-      | none => ⟨.errTooManyErrors, [], []⟩
-      | some keys =>
-        let keysToCheck := sh (filterAndDedupe pend keys)
-        let keysToCheck := if Gen.Src.c16KeysOverLimit keysToCheck.length Gen.v2ReportKeysLimit
-                           then keysToCheck.take Gen.v2ReportKeysLimit else keysToCheck
-        if keysToCheck.length = 0 then ⟨.noReport, [], []⟩ else
-        let ans := run keysToCheck
-        if ans.err then ⟨.errRunner, keysToCheck, []⟩
-        else if Gen.Src.c16NoResults ans.results.length then ⟨.noReport, keysToCheck, []⟩
-        else if Gen.Src.c16TooManyResults ans.results.length keysToCheck.length then ⟨.errTooManyResults, keysToCheck, []⟩
-        else
-          let toPerform := loop cfg ans.results
-          if toPerform.length = 0 then ⟨.noReport, keysToCheck, []⟩
-          else if encErr then ⟨.errEncode, keysToCheck, toPerform⟩
-          else ⟨.report, keysToCheck, toPerform⟩ := by
-  unfold reportWith
-  cases observationsToKeys attr with
-  | none => rfl
-  | some keys => simp [Gen.Src.c16KeysOverLimit, Gen.Src.c16NoResults, Gen.Src.c16TooManyResults]
-
-/-- `Observation.Validate`: `!ok || err != nil` for the block key and for every identifier
-(`BasicEncoder` answers `(true, nil)` or `(false, err)`) -/
-theorem validObs_matches_source (o : Obs) :
-    validObs o = (!Gen.Src.c16ValidateRejects (validBlock o.block) (!validBlock o.block) &&
-      o.ids.all fun i => !Gen.Src.c16ValidateRejects (validId i) (!validId i)) := by
-  simp [validObs, Gen.Src.c16ValidateRejects]
-
-/-- `ValidateBlockKey`: the range test `Cmp(0) == -1 || Cmp(max) > 0` (a canonical numeral is never negative) -/
-theorem validBlock_matches_source (s : Bytes) (c : Int) (hc : c > 0 ↔ decVal s > maxBlockNumber) :
-    validBlock s = (canonDec s && !Gen.Src.c16BlockOutOfRange false c) := by
-  simp only [validBlock, Gen.Src.c16BlockOutOfRange, Bool.false_or]
-  by_cases h : decVal s ≤ maxBlockNumber
-  · have : ¬ c > 0 := fun hh => by have := hc.mp hh; omega
-    simp [h, this]
-  · have : c > 0 := hc.mpr (by omega)
-    simp [h, this]
-
-/-- `ValidateUpkeepIdentifier`: the same range test against 2^256 − 1 -/
-theorem validId_matches_source (s : Bytes) (c : Int) (hc : c > 0 ↔ decVal s > maxUpkeepIdentifier) :
-    validId s = (canonDec s && !Gen.Src.c16IdOutOfRange false c) := by
-  simp only [validId, Gen.Src.c16IdOutOfRange, Bool.false_or]
-  by_cases h : decVal s ≤ maxUpkeepIdentifier
-  · have : ¬ c > 0 := fun hh => by have := hc.mp hh; omega
-    simp [h, this]
-  · have : c > 0 := hc.mpr (by omega)
-    simp [h, this]
-
-/-- one iteration of the loop of `ObservationsToUpkeepKeys` on a decoded observation: validation,
-`len(ids) > 0` and the cut to `ObservationUpkeepsLimit` -/
-theorem collect_step_matches_source (ob : Obs) (rest : List (Option Obs)) (a : Acc) :
-    collect (some ob :: rest) a =
-      if !validObs ob then collect rest { a with parseErrors := a.parseErrors + 1 }
-      else
-        let a := { a with blocks := a.blocks ++ [ob.block] }
-        let a := if Gen.Src.c16HasIds ob.ids.length then
-                   { a with ids := a.ids ++ [if Gen.Src.c16IdsOverLimit ob.ids.length Gen.v2ObservationUpkeepsLimit
-                                             then ob.ids.take Gen.v2ObservationUpkeepsLimit else ob.ids] }
-                 else a
-        collect rest a := by
-  rw [collect]
-  simp only [Gen.Src.c16HasIds, Gen.Src.c16IdsOverLimit, decide_eq_true_eq]
-
-/-- `ObservationsToUpkeepKeys`: the error test `parseErrors == len(attr)` -/
-theorem observationsToKeys_matches_source (attr : List (Option Obs)) :
-    observationsToKeys attr =
-      if Gen.Src.c16AllObservationsFailed (collect attr {}).parseErrors attr.length then none
-      else some ((collect attr {}).ids.map fun ids =>
-        ids.map (mkKey (decOf (median ((collect attr {}).blocks.map decVal))))) := by
-  simp only [observationsToKeys, Gen.Src.c16AllObservationsFailed, decide_eq_true_eq]
-
-/-- `GetMedian`: `l == 0` gives 0, otherwise the element at `l/2` of the sorted values -/
-theorem median_matches_source (vs : List Nat) :
-    median vs = if Gen.Src.c16MedianOfNone vs.length then 0 else (isort vs).getD (vs.length / 2) 0 := by
-  simp only [Gen.Src.c16MedianOfNone, decide_eq_true_eq]
-  split
-  · rename_i h
-    have : vs = [] := List.length_eq_zero_iff.mp h
-    subst this; rfl
-  · rfl
-
-/-- `filterAndDedupe`: a key is skipped when a filter answers `ok || err != nil` -/
-theorem dedupeLoop_matches_source (pending failed : Bytes → Bool) (ks out : List Bytes) :
-    dedupeLoop (fun k => Gen.Src.c16FilterSkips (pending k) (failed k)) ks out =
-      dedupeLoop (fun k => pending k || failed k) ks out := rfl
-
-/-- `PollingObserver.Observe`: an identifier is dropped when `pending || err != nil` -/
-theorem observe_matches_source (pending failed : Bytes → Bool) (st : Stager) :
-    observe (fun k => Gen.Src.c16ObserveSkips (pending k) (failed k)) st =
-      (st.block, st.ids.filter fun id =>
-        !(pending (mkKey st.block (idBytes id)) || failed (mkKey st.block (idBytes id)))) := rfl
-
-/-- `ocrPlugin.Observation`: `len(allIDs) > ObservationUpkeepsLimit` -/
-theorem observationIds_matches_source (sh : List (Option Bytes) → List (Option Bytes)) (ids : List (Option Bytes)) :
-    observationIds sh ids =
-      if Gen.Src.c16ObservationIdsOverLimit (sh ids).length Gen.v2ObservationUpkeepsLimit
-      then (sh ids).take Gen.v2ObservationUpkeepsLimit else sh ids := by
-  simp only [observationIds, Gen.Src.c16ObservationIdsOverLimit, decide_eq_true_eq]
-
-/-- `limitedLengthEncode`: `len(obs.UpkeepIdentifiers) == 0` and, per prefix, `len(b) > limit` -/
-theorem limitedLengthEncode_matches_source (block : Bytes) (ids : List (Option Bytes)) (limit : Nat) :
-    limitedLengthEncode block ids limit =
-      if Gen.Src.c16EncodeNoIds ids.length then encodeObs block ids else lleGo block ids limit ids.length 0 [] := by
-  simp only [limitedLengthEncode, Gen.Src.c16EncodeNoIds, decide_eq_true_eq]
-
-theorem lleGo_step_matches_source (block : Bytes) (ids : List (Option Bytes)) (limit n i : Nat) (res : Bytes) :
-    lleGo block ids limit (n + 1) i res =
-      if Gen.Src.c16EncodedOverLimit (encodeObs block (ids.take (i + 1))).length limit then res
-      else lleGo block ids limit n (i + 1) (encodeObs block (ids.take (i + 1))) := by
-  rw [lleGo]
-  simp only [Gen.Src.c16EncodedOverLimit, decide_eq_true_eq]
-
-/-- `DecodeOffchainConfig`: the three validators' tests and default values -/
-theorem defaults_matches_source (c : RawCfg) :
-    defaults c =
-      { batch := if Gen.Src.c16BatchNeedsDefault c.batch then Gen.Src.c16DefaultBatch else c.batch.toNat,
-        gasLimit := if Gen.Src.c16GasLimitNeedsDefault c.gasLimit.toNat
-                    then UInt32.ofNat Gen.Src.c16DefaultGasLimit else c.gasLimit,
-        overhead := if Gen.Src.c16OverheadNeedsDefault c.overhead.toNat
-                    then UInt32.ofNat Gen.Src.c16DefaultOverhead else c.overhead } := by
-  have hz : ∀ x : UInt32, (x = 0) ↔ (x.toNat = 0) := fun x =>
-    ⟨fun h => by rw [h]; rfl, fun h => UInt32.toNat_inj.mp (by rw [h]; rfl)⟩
-  simp only [defaults, Gen.Src.c16BatchNeedsDefault, Gen.Src.c16GasLimitNeedsDefault,
-    Gen.Src.c16OverheadNeedsDefault, Gen.Src.c16DefaultBatch, Gen.Src.c16DefaultGasLimit,
-    Gen.Src.c16DefaultOverhead, decide_eq_true_eq, hz]
-  rfl
 
 end AutoVerif.C16
